@@ -10,6 +10,8 @@ require (
 	pgregory.net/rapid v1.3.0
 )
 
+require golang.org/x/text v0.14.0 // indirect
+
 require (
 	github.com/beorn7/perks v1.0.1 // indirect
 	github.com/cenkalti/backoff/v4 v4.1.3
